@@ -291,6 +291,9 @@ func c19unit(e common.Env, p *common.Part, kind string, nts []nt, reps int) {
 			classificationOracle(w, p, label)
 			disguisedEnvelopeOracle(w, p, label)
 			concurrentClassification(w, p, label)
+			if kind == "eddsa" && x.n >= 3 || kind == "ecdsa" && e.Thorough() {
+				craftedPrefixSession(p, kind, ids, x.t, label)
+			}
 			// (b) digests
 			digs := c19digests(rng)
 			if kind == "ecdsa" {
